@@ -940,6 +940,12 @@ Proof.
   - rewrite Z.mod_small by lia. split; [reflexivity|]. lia.
 Qed.
 
+(* ---- the repack option of the builder (non-default) ---- *)
+
+(* with byte order Big, to_registers(repack=True) is to_registers() *)
+Lemma to_registers_repack_big s : to_registers spec_code Big true s = to_registers spec_code Big false s.
+Proof. reflexivity. Qed.
+
 (* ================================================================= part 3: the generated code *)
 
 (* The tie to the source: what the translator extracted from payload.py / constants.py on
@@ -1007,3 +1013,43 @@ Proof.
   rewrite code_is_spec. intros H. rewrite add_num_spec. unfold enc_num, pack1.
   rewrite !kind_fmt_range, H. destruct (kind_words k); reflexivity.
 Qed.
+
+(* ---- repack=True: registers are read with the builder's byte order, fromRegisters always
+        writes them big-endian: under byte order Little the bytes of every word come back swapped ---- *)
+
+Definition via_registers_statement (repack : bool) (bo wo : endian) (vs : list value) : Prop :=
+  exists s regs p, to_string code bo wo vs = Ok s /\
+    to_registers code bo repack s = Ok regs /\
+    from_registers code regs = Ok p /\
+    decode_seq code bo wo (types vs) p = Ok (vs, length s).
+
+Theorem via_registers_repack_partial repack bo wo vs :
+  (repack = true -> bo = Big) -> wf_values vs = true -> via_registers_statement repack bo wo vs.
+Proof.
+  intros Hb H. destruct (via_registers_code bo wo vs H) as (s & regs & p & Hs & Hr & Hf & _ & Hd).
+  exists s, regs, p. repeat split; try assumption.
+  destruct repack; [|exact Hr]. rewrite (Hb eq_refl) in *. rewrite code_is_spec in *.
+  rewrite to_registers_repack_big. exact Hr.
+Qed.
+
+Theorem via_registers_repack_refuted :
+  exists bo wo vs, wf_values vs = true /\ ~ via_registers_statement true bo wo vs.
+Proof.
+  exists Little, Big, [U16 0x1234]. split; [reflexivity|].
+  intros (s & regs & p & Hs & Hr & Hf & Hd).
+  vm_compute in Hs. injection Hs as <-. vm_compute in Hr. injection Hr as <-.
+  vm_compute in Hf. injection Hf as <-. vm_compute in Hd. discriminate Hd.
+Qed.
+
+(* ---- coil transport (to_coils -> fromCoils; not named by the property text):
+        fromCoils drops its wordorder argument, the decoder it returns has word order Big ---- *)
+
+Definition via_coils (bo wo : endian) (vs : list value) : res (list value * nat) :=
+  do s <- to_string code bo wo vs;
+  do regs <- to_registers code bo false s;
+  do p <- from_coils code (to_coils code regs);
+  decode_seq code bo (from_coils_wordorder code wo) (types vs) p.
+
+Theorem via_coils_refuted :
+  exists bo wo vs, wf_values vs = true /\ via_coils bo wo vs = Ok ([U32 0x33441122], 4%nat) /\ vs = [U32 0x11223344].
+Proof. exists Big, Little, [U32 0x11223344]. vm_compute. repeat split. Qed.
